@@ -10,9 +10,17 @@
   `ops` are the radii operand and what lyon_geom computes for that arc at the adapter's current
   position (centre, start point, pieces).  Which branch `arc`/`arc_to` takes is decided by the
   model (`numGeo`: `isStraightLine`, `approxEqPt`, `nearStart` at Float32).
+
+  Family `svg_arc_e2e`: NO advice.  The arc commands carry their operands only
+    A x y rx ry rot large sweep | a dx dy rx ry rot large sweep | R cx cy rx ry sweep rot
+  and the whole arc geometry is computed by the model (`geoF32 = concreteGeo quadsVia64` of
+  `Model/Path/SvgConcrete.lean`: `SvgArc::is_straight_line`, `to_arc`, the `atan2` start angle of
+  `WithSvg::arc`, `Arc::from`, `Arc::cast::<f64>`, `for_each_quadratic_bezier` at f64, the cast
+  back to f32) — the instance of `Geo` that the theorems of `Props/C15b.lean` are about.
 -/
 import LyonVerif.Drive.Common
 import LyonVerif.Model.Path.Svg
+import LyonVerif.Model.Path.SvgConcrete
 
 namespace Lyon.Drive.C15
 open Lyon Lyon.Drive Lyon.Path Lyon.Svg
@@ -93,7 +101,81 @@ def splitBar : List String → List (List String)
 def seqs (v : Array String) : String :=
   " | ".intercalate ((splitBar v.toList).map runSeq)
 
+/-! ### end to end: the concrete arc geometry, no advice -/
+
+abbrev GE := ArcArgs F
+
+def bl (s : String) : Bool := s == "1"
+
+/-- operands of `arc_to`: `rx ry rot large sweep` -/
+def endArgs (rx ry rot lg sw : String) : GE :=
+  ⟨pt rx ry, h rot, bl lg, bl sw, pt "0" "0", h "0"⟩
+
+/-- operands of `arc`: `cx cy rx ry sweep rot` -/
+def ctrArgs (cx cy rx ry sweep rot : String) : GE :=
+  ⟨pt rx ry, h rot, false, false, pt cx cy, h sweep⟩
+
+partial def parseE : List String → List (Cmd F GE)
+  | [] => []
+  | "M" :: x :: y :: r => .moveTo (pt x y) :: parseE r
+  | "m" :: x :: y :: r => .relMoveTo (pt x y) :: parseE r
+  | "Z" :: r => .close :: parseE r
+  | "L" :: x :: y :: r => .lineTo (pt x y) :: parseE r
+  | "l" :: x :: y :: r => .relLineTo (pt x y) :: parseE r
+  | "H" :: x :: r => .hLineTo (h x) :: parseE r
+  | "h" :: x :: r => .relHLineTo (h x) :: parseE r
+  | "V" :: y :: r => .vLineTo (h y) :: parseE r
+  | "v" :: y :: r => .relVLineTo (h y) :: parseE r
+  | "Q" :: a :: b :: x :: y :: r => .quadTo (pt a b) (pt x y) :: parseE r
+  | "q" :: a :: b :: x :: y :: r => .relQuadTo (pt a b) (pt x y) :: parseE r
+  | "T" :: x :: y :: r => .smoothQuadTo (pt x y) :: parseE r
+  | "t" :: x :: y :: r => .smoothRelQuadTo (pt x y) :: parseE r
+  | "C" :: a :: b :: c :: d :: x :: y :: r => .cubicTo (pt a b) (pt c d) (pt x y) :: parseE r
+  | "c" :: a :: b :: c :: d :: x :: y :: r => .relCubicTo (pt a b) (pt c d) (pt x y) :: parseE r
+  | "S" :: c :: d :: x :: y :: r => .smoothCubicTo (pt c d) (pt x y) :: parseE r
+  | "s" :: c :: d :: x :: y :: r => .smoothRelCubicTo (pt c d) (pt x y) :: parseE r
+  | "A" :: x :: y :: rx :: ry :: rot :: lg :: sw :: r =>
+    .arcTo (endArgs rx ry rot lg sw) (pt x y) :: parseE r
+  | "a" :: x :: y :: rx :: ry :: rot :: lg :: sw :: r =>
+    .relArcTo (endArgs rx ry rot lg sw) (pt x y) :: parseE r
+  | "R" :: cx :: cy :: rx :: ry :: sweep :: rot :: r => .arc (ctrArgs cx cy rx ry sweep rot) :: parseE r
+  | _ :: _ => []
+
+/-- `cast::<S, i32>(n_steps).unwrap()` would panic (NaN) for this arc command in this state -/
+def cmdPanics (s : St F) : Cmd F GE → Bool
+  | .arcTo r to => svgPanics r s.cur to
+  | .relArcTo r v => svgPanics r s.cur (relToAbs s v)
+  | .arc r => ctrPanics r s.cur
+  | _ => false
+where
+  ctrPanics (r : GE) (cur : Pt F) : Bool :=
+    !approxEqPt cur r.center &&
+      arcPanics (castArc64 (centerArc (toP r.center) (toP r.radii) r.sweepAngle r.xrot (toP cur)))
+  svgPanics (r : GE) (cur to : Pt F) : Bool :=
+    !ArcConv.isStraightLine (svgArcOf r cur to) &&
+      ctrPanics ⟨ofP (ArcConv.fromSvgArc (svgArcOf r cur to)).radii, (ArcConv.fromSvgArc (svgArcOf r cur to)).xrot,
+        false, false, ofP (ArcConv.fromSvgArc (svgArcOf r cur to)).center,
+        (ArcConv.fromSvgArc (svgArcOf r cur to)).sweep⟩ cur
+
+/-- per command: its calls, then `; cur`; `none` if lyon panics -/
+def traceE (s : St F) : List (Cmd F GE) → Option (List String)
+  | [] => some ("build" :: (endIfNeeded s).map fcall)
+  | c :: r =>
+    if cmdPanics s c then none
+    else
+      let o := step geoF32 s c
+      (traceE o.1 r).map fun t => o.2.map fcall ++ [";", fpt o.1.cur] ++ t
+
+def runSeqE (toks : List String) : String :=
+  match traceE (St.init (0 : F)) (parseE toks) with
+  | some l => unwords l
+  | none => "panic"
+
+def seqsE (v : Array String) : String :=
+  " | ".intercalate ((splitBar v.toList).map runSeqE)
+
 def families : List Family := [
+  Family.plain "svg_arc_e2e" seqsE,
   Family.plain "wit" seqs,
   Family.plain "exh" seqs,
   Family.plain "exhm" seqs,
